@@ -1,7 +1,8 @@
 import ApolloModel.Model.Proto
 import ApolloModel.Model.SchemaInvariants
+import ApolloModel.Model.Implementation
 import Driver.D14
-open Apollo Apollo.Proto Apollo.SchemaValidation Apollo.SchemaInvariants
+open Apollo Apollo.Proto Apollo.SchemaValidation Apollo.SchemaInvariants Apollo.Implementation
 namespace Driver
 
 /- streams of property C15 are named `c15.<name>` (cases written by harness/src/p15.rs) -/
@@ -11,6 +12,12 @@ def decodeScalarsType (s : String) : Scalars.Name × Scalars.TypeDef :=
   match s.splitOn ";" with
   | [n, b, k, refs] => (n, { isBuiltIn := b == "b", isScalar := k == "s", refs := (refs.splitOn ",").filter (· ≠ "") })
   | _ => ("", { isBuiltIn := false, isScalar := false, refs := [] })
+
+/-- `ft,ft;at,at;ift;m,m` -/
+def decodeRefs (s : String) : TypeRefs :=
+  match s.splitOn ";" with
+  | [a, b, c, d] => ⟨strList a, strList b, strList c, strList d⟩
+  | _ => ⟨[], [], [], []⟩
 
 def bit (b : Bool) : String := if b then "1" else "0"
 
@@ -24,6 +31,18 @@ def c15 (stream : String) (fs : List String) : String :=
         directiveRefs := (drefs.splitOn ",").filter (· ≠ "") }
     bit (rootsInv (decodeRoot q) (decodeRoot m) (decodeRoot sub)) ++ bit (implementsKindInv s) ++ bit (transInv s)
       ++ bit (inputInv g) ++ bit (scalarsInv sc)
+  | "c15.inv", [q, m, sub, imp, ig, types, drefs, tfields, subs, kenv, refs] =>
+    let s : ISchema := if imp == "" then [] else (imp.splitOn "|").map decodeTypeInfo
+    let g : IGraph := if ig == "-" then [] else decodeIGraph ig
+    let sc : Scalars.Schema :=
+      { types := if types == "" then [] else (types.splitOn "|").map decodeScalarsType,
+        directiveRefs := (drefs.splitOn ",").filter (· ≠ "") }
+    match ((tfields.splitOn "|").map decodeFields).mapM id with
+    | none => "bad-case"
+    | some fs =>
+      bit (rootsInv (decodeRoot q) (decodeRoot m) (decodeRoot sub)) ++ bit (implementsKindInv s) ++ bit (transInv s)
+        ++ bit (inputInv g) ++ bit (scalarsInv sc)
+        ++ bit (contractsInv (decodeSub subs) s fs) ++ bit (kindsInv (decodeKindEnv kenv) ((refs.splitOn "|").map decodeRefs))
   | _, _ => "bad-case"
 
 end Driver
